@@ -16,14 +16,13 @@ prefix of (game_will_start game_starting game_started turn* game_will_end game_e
 pc is the last event emitted. -/
 theorem trace_grammar (b m k : Nat) (ops : List Op) :
     okFrom none (tr (run (start0 b m k) ops)) = true ∧ pcOk (run (start0 b m k) ops) :=
-  ⟨(run_ginv _ ops (start0_inv b m k)).1.chain, (run_ginv _ ops (start0_inv b m k)).1.pc⟩
+  ⟨(run_ginv _ ops (start0_inv b m k)).chain, (run_ginv _ ops (start0_inv b m k)).pc⟩
 
-/-- 0 ≤ balls_in_play ≤ num_balls_known, always (Nat gives the lower bound). -/
-theorem bip_bounds (b m k : Nat) (ops : List Op) : (run (start0 b m k) ops).bip ≤ k := by
-  have h := run_ginv _ ops (start0_inv b m k)
-  have := h.1.bip
-  rw [h.2] at this
-  exact this
+/-- 0 ≤ balls_in_play ≤ num_balls_known, always (Nat gives the lower bound) — with the number of balls known as it is at
+that moment (it grows when a ball MPF did not know about is found; op `setKnown`). -/
+theorem bip_bounds (b m k : Nat) (ops : List Op) :
+    (run (start0 b m k) ops).bip ≤ (run (start0 b m k) ops).known :=
+  (run_ginv _ ops (start0_inv b m k)).bip
 
 /-- Once an end-of-game request has been accepted (`ending` set), no resumption of the coroutine — from any state —
 emits `ball_will_start`, and `ending` stays set. -/
@@ -75,19 +74,25 @@ theorem player_rotates (st st' : St) (hp : st.pc = some .pted) (h : resume st = 
     · split <;> simp_all [emit]
     · split <;> simp_all [emit] <;> omega
 
-/-- Ball numbers: for balls_per_game ≥ 1, after ANY op sequence no player's ball number exceeds balls_per_game; before the
+/-- Ball numbers: for balls_per_game ≥ 1, after ANY op sequence no player's ball number exceeds balls_per_game — the value
+the template had when this game began (op `config`, only enabled between games: a change of the template during a game has
+no effect on it); before the
 first turn nobody has a ball number; during the turns every player up to the current one is on the current player's ball
 and every later player on the ball before it (the round structure: each player gets one turn per ball number, in order). -/
 theorem ball_number_bounded (b m k : Nat) (hb : 1 ≤ b) (ops : List Op) :
     let s := run (start0 b m k) ops
-    (∀ p, s.balls p ≤ b) ∧
+    (∀ p, s.balls p ≤ s.bpg) ∧
     (inTurn s.pc → 1 ≤ s.cur ∧ s.cur ≤ s.players ∧ 1 ≤ s.balls s.cur ∧
       (∀ p, 1 ≤ p → p ≤ s.cur → s.balls p = s.balls s.cur) ∧
       (∀ p, s.cur < p → p ≤ s.players → s.balls p = s.balls s.cur - 1)) := by
   intro s
   have hI := run_binv _ ops (start0_binv b m k hb)
-  have hk : s.bpg = b := (run_bpg (start0 b m k) ops)
-  exact ⟨fun p => hk ▸ hI.bound p, hI.turnB⟩
+  exact ⟨hI.bound, hI.turnB⟩
+
+/-- balls_per_game / max_players only change between games: every step of a running game keeps them. -/
+theorem config_fixed_during_game (st st' : St) (op : Op) (hp : st.pc.isSome) (h : step st op = some st') (hs : op ≠ .start) :
+    st'.bpg = st.bpg ∧ st'.maxPlayers = st.maxPlayers :=
+  step_config st st' op hp hs h
 
 /-- One ball per turn plus one per extra ball awarded: in every reachable state, for every player, the number of balls
 started in this game plus the extra balls still pending equals the number of turns whose first ball started plus the extra
@@ -116,7 +121,153 @@ theorem turn_starts_its_balls (st st' : St) (h : resume st = some st') :
     by_cases he : st.ending = true <;> by_cases hs : st.slam = true <;> by_cases hx : st.extra st.cur > 0 <;>
       simp [hp, he, hs, hx, extraCheck, startBall] at h <;> subst h <;> simp [emit, he, hs, hx, setAt] <;> omega
 
+/-! ### the real tilt mode, vetoed adds, forced stops, over-reported drains -/
+
+/-- Nothing the tilt mode does (tilt, slam tilt, warning, warning reset, tilt clear) touches the lifecycle trace, the awaited
+event, balls_in_play, the roster or the ball numbers: it acts on the game only through `tilted`, `slam_tilted` and the
+end-of-ball event. -/
+theorem tilt_mode_leaves_lifecycle_alone (st st' : St) (op : Op)
+    (hop : op = .tilt ∨ op = .slamTilt ∨ op = .tiltWarn ∨ op = .warnReset ∨ op = .tiltClear)
+    (h : step st op = some st') :
+    tr st' = tr st ∧ st'.pc = st.pc ∧ st'.bip = st.bip ∧ st'.players = st.players ∧ st'.cur = st.cur ∧
+      st'.balls = st.balls ∧ st'.ending = st.ending := by
+  have f := tilt_steps_frame st st' op hop h
+  exact ⟨by simp [tr, f.log], f.pc, f.bip, f.players, f.cur, f.balls, f.ending⟩
+
+/-- A tilt requests the end of the ball exactly when the game is neither tilted already nor ending; otherwise it changes
+nothing at all. -/
+theorem tilt_requests_ball_end (st st' : St) (h : step st .tilt = some st') :
+    (st.tilted = false ∧ st.ending = false → st'.tilted = true ∧ st'.endEv = true) ∧
+    (st.tilted = true ∨ st.ending = true → st' = st) := by
+  simp only [step] at h
+  split at h
+  · cases h
+  · cases h
+    constructor
+    · intro ⟨a, b⟩; simp [tiltNow, a, b]
+    · intro hx; rcases hx with a | a <;> simp [tiltNow, a]
+
+/-- The warnings_to_tilt-th warning of the player who is up tilts; earlier ones only count; without a player, while ending
+or while tilted a warning is ignored. -/
+theorem warning_threshold (st st' : St) (h : step st .tiltWarn = some st')
+    (hc : st.cur ≠ 0) (he : st.ending = false) (ht : st.tilted = false) :
+    st'.warn st.cur = st.warn st.cur + 1 ∧
+    (st.warn st.cur + 1 ≥ st.warnTo → st'.tilted = true ∧ st'.endEv = true) ∧
+    (st.warn st.cur + 1 < st.warnTo → st'.tilted = false ∧ st'.endEv = st.endEv) := by
+  simp only [step] at h
+  split at h
+  · cases h
+  · cases h
+    by_cases hw : st.warn st.cur + 1 ≥ st.warnTo
+    · simp [MpfVerif.Game.tiltWarn, hc, he, ht, hw, tiltNow, setAt]
+    · have hw' : st.warn st.cur + 1 < st.warnTo := by omega
+      simp [MpfVerif.Game.tiltWarn, hc, he, ht, hw, setAt]
+
+/-- A slam tilt is final: the flag survives every step of the game, and the turn that is running is the last one — after
+player_turn_ended the game ends instead of rotating (whatever the ball numbers and the number of players). -/
+theorem slam_tilt_ends_game (st st' : St) (hs : st.slam = true) :
+    (∀ op, op ≠ .start → step st op = some st' → st'.slam = true) ∧
+    (st.pc = some .pted → resume st = some st' → st'.pc = some .gwe ∧ st'.ending = true) := by
+  constructor
+  · intro op hop h
+    exact step_slam st st' op hop hs h
+  · intro hp h
+    unfold MpfVerif.Game.resume at h
+    split at h
+    · cases h
+    simp [hp, hs, loopCheck] at h
+    subst h
+    simp [emit]
+
+/-- A player-add request that a handler of player_add_request vetoes leaves the roster, the current player and the trace as
+they were, and the coroutine can go on (the pending add is gone). -/
+theorem vetoed_add_changes_nothing (st s1 s2 : St) (h1 : step st .addAccepted = some s1) (h2 : step s1 .addVetoed = some s2) :
+    s2.players = st.players ∧ s2.cur = st.cur ∧ s2.pendAdds = st.pendAdds ∧ tr s2 = tr st ∧ s2.pc = st.pc := by
+  simp only [step, stepAdd] at h1 h2
+  split at h1
+  · cases h1
+  · cases h1
+    split at h2
+    · cases h2
+    · cases h2
+      exact ⟨rfl, rfl, by simp, rfl, rfl⟩
+
+/-- end_game() while the game waits for its first player (the add request was vetoed): the game ends without having
+started, instead of waiting for ever for a player whom request_player_add refuses while ending. -/
+theorem end_request_while_waiting_for_first_player (st : St) (hp : st.pc = some .gsg) (hc : st.checked = true)
+    (h0 : st.players = 0) (hq : st.pendAdds = 0) (he : st.ending = true) :
+    ∃ st', step st .resume = some st' ∧ st'.pc = some .gwe := by
+  refine ⟨emit st .gwe, ?_, rfl⟩
+  simp [step, MpfVerif.Game.resume, hp, hc, h0, hq, he]
+
+/-- A game whose mode is stopped from outside leaves the game slot empty and a new game can start at once. -/
+theorem aborted_game_restartable (st st1 : St) (h : step st .abort = some st1) :
+    st1.pc = none ∧ ∃ st2, step st1 .start = some st2 ∧ tr st2 = tr st1 ++ [.gws] := by
+  simp only [step] at h
+  split at h
+  · cases h
+  · cases h
+    refine ⟨rfl, ?_⟩
+    simp [step, tr, emit]
+
+/-- A drain that reports at least as many balls as are in play (also MORE: a ball MPF did not count as in play drains
+together with the last one) takes balls_in_play to exactly zero, sets the end-of-ball event, and the ball ends. -/
+theorem overdrain_ends_ball (st : St) (n : Nat) (hp : st.pc = some .bsd) (hb : st.bip > 0) (hn : n ≥ st.bip)
+    (hq : st.pendAdds = 0) :
+    ∃ s1 s2, step st (.drain n) = some s1 ∧ s1.bip = 0 ∧ s1.endEv = true ∧
+      step s1 .resume = some s2 ∧ s2.pc = some .bwe := by
+  have hn0 : n ≠ 0 := by omega
+  have hle : ¬ ((st.bip : Int) - (n : Int) > (st.known : Int)) := by omega
+  have hz : (st.bip : Int) - (n : Int) < 0 ∨ ((st.bip : Int) - (n : Int)).toNat = 0 := by omega
+  have hbip : (setBipTo st ((st.bip : Int) - n)).bip = 0 := by
+    simp only [setBipTo, hle, if_false]
+    rcases hz with hz | hz
+    · simp [hz]
+    · split <;> simp [hz]
+  have hev : (setBipTo st ((st.bip : Int) - n)).endEv = true := by
+    have : (setBipTo st ((st.bip : Int) - n)).endEv = (st.endEv || (decide (st.bip > 0) && decide ((setBipTo st ((st.bip : Int) - n)).bip = 0))) := rfl
+    rw [this, hbip]
+    simp [hb]
+  refine ⟨setBipTo st ((st.bip : Int) - n), emit { setBipTo st ((st.bip : Int) - n) with bip := 0 } .bwe, ?_, hbip, hev, ?_, rfl⟩
+  · simp [step, hp, hn0]
+  · simp only [step, MpfVerif.Game.resume]
+    have hpq : (setBipTo st ((st.bip : Int) - n)).pendAdds = 0 := hq
+    have hpc : (setBipTo st ((st.bip : Int) - n)).pc = some .bsd := hp
+    simp [hpq, hpc, hp, hev]
+
+/-- Observation (not a violation of C06): a tilt that arrives while the ball is already ending sets `tilted`, but its
+end-of-ball request is wiped when the next ball starts — the next ball (here player 1's second ball) is in play with the
+game still marked tilted and no end requested. -/
+theorem tilt_while_ball_ending_carries_over_witness :
+    (fun s : St => (s.pc, s.tilted, s.endEv, s.bip, s.balls 1))
+      (run (start0 2 4 3) [.start, .resume, .startCheck, .addPlayer, .resume, .resume, .resume, .resume, .resume, .resume,
+        .resume, .drain 1, .resume, .resume, .tilt, .resume, .resume, .resume, .resume, .resume, .resume, .resume, .resume,
+        .resume, .resume]) = (some .bsd, true, false, 1, 2) := by decide
+
 /-! ### non-vacuity -/
+
+/-- two warnings of three only count, the third tilts the ball -/
+example : (let s := run { start0 1 4 3 with warnTo := 3 } [.start, .resume, .startCheck, .addPlayer, .resume, .resume, .resume, .resume,
+      .resume, .resume, .resume, .tiltWarn, .tiltWarn]
+    (s.tilted, s.warn 1, s.endEv)) = (false, 2, false) := by decide
+example : (let s := run { start0 1 4 3 with warnTo := 3 } [.start, .resume, .startCheck, .addPlayer, .resume, .resume, .resume, .resume,
+      .resume, .resume, .resume, .tiltWarn, .tiltWarn, .tiltWarn]
+    (s.tilted, s.warn 1, s.endEv)) = (true, 3, true) := by decide
+
+/-- a vetoed first player, then end_game: game_will_start game_starting game_will_end game_ending game_ended -/
+example : tr (run (start0 3 4 3) [.start, .resume, .startCheck, .addAccepted, .addVetoed, .endGame, .resume, .resume, .resume]) =
+    [.gws, .gsg, .gwe, .geg, .ged] := by decide
+
+/-- restart: the mode is stopped during ball 1, a new game with a different balls_per_game starts -/
+example : (let s := run (start0 3 4 3) [.start, .resume, .startCheck, .addPlayer, .resume, .resume, .resume, .resume, .resume, .resume,
+      .resume, .abort, .config 1 2, .start, .resume]
+    ((tr s).drop 9, s.bpg)) = ([.abt, .gws, .gsg], 1) := by decide
+
+/-- one ball in play, two balls drain at once: the ball ends -/
+example : (let s := run (start0 1 4 3) [.start, .resume, .startCheck, .addPlayer, .resume, .resume, .resume, .resume, .resume, .resume,
+      .resume, .drain 2, .resume]
+    (s.pc, s.bip)) = (some .bwe, 0) := by decide
+
 
 /-- one player, one ball per game: the whole game, with a drain ending the ball -/
 example : (tr (run (start0 1 4 3) [.start, .resume, .startCheck, .addPlayer, .resume, .resume, .resume, .resume, .resume, .resume, .resume,
